@@ -24,7 +24,13 @@
                              (otherwise only when the response has already started downstream)
      append_error_continues : whether downStream.appendHeaders, when the downstream sender refuses the headers, only logs the error
                              and goes on (to endStream when the reply is complete); otherwise it calls resetStream() and returns.
-                             The results of AppendData / AppendTrailers are discarded by the code (checked by the translator). *)
+                             The results of AppendData / AppendTrailers are discarded by the code (checked by the translator).
+     reset_excludes_global : whether onUpstreamReset keeps UpstreamGlobalTimeout away from the retry state (`reason != UpstreamGlobalTimeout &&`)
+     reset_reads_status : whether doRetryCheck consults the status mapping also when an upstream RESET is judged (no response): the
+                             mapping of HTTP/1.1 and HTTP/2 ignores the headers and reads the x-mosn-status variable of the request
+                             context, which then still holds the status of an EARLIER attempt's response
+     res_counts_unlimited : whether resource.Increase / Decrease (cluster resource manager) count also while no limit is configured
+                             (max == 0); CanCreate is true then in either case *)
 From Coq Require Import List ZArith Bool Arith Lia.
 From RecordUpdate Require Import RecordSet.
 Import ListNotations RecordSetNotations.
@@ -49,6 +55,7 @@ Inductive route := RouteNone | RouteDirect (code : Z) (body : bool) | RouteNoClu
 Record srcp := { loop_bound : nat; min_budget : nat; reset_guarded : bool; direct_clears_again : bool; direct_cancels_retry : bool; direct_resets_upstream : bool;
   put_resets_cursor : bool; retry_checks_direct : bool; retry_refinalizes : bool; timers_reset_stream : bool; hijack_clears_body : bool;
   retry_clears_reuse : bool; setupretry_clears_reuse : bool; global_lost_cas_stops : bool; append_error_continues : bool;
+  reset_excludes_global : bool; reset_reads_status : bool; res_counts_unlimited : bool;
   reason_code : reason -> Z }.
 
 Record cfg := {
@@ -62,16 +69,20 @@ Record cfg := {
   c_delay : list phase;            (* filter phases whose first entry is slow (a filter call that takes time) *)
   (* environment input of the append steps: the downstream sender (stream layer) returns an error from AppendHeaders /
      AppendData / AppendTrailers *)
-  c_snd_err_hdr : bool; c_snd_err_data : bool; c_snd_err_trl : bool
+  c_snd_err_hdr : bool; c_snd_err_data : bool; c_snd_err_trl : bool;
+  (* upstream protocol flavour: true = the status mapping is protocol.GetStatusCodeMapping (HTTP/1.1, HTTP/2): it ignores the headers
+     and reads the x-mosn-status variable of the request context, which the client stream sets when a response arrives;
+     false = the status is read from the response headers (bolt and the other xprotocols) *)
+  c_http : bool
 }.
 
 #[export] Instance eta_cfg : Settable _ := settable! Build_cfg
   <c_oneway; c_data; c_trailers; c_route; c_nhosts; c_retry_on; c_num_retries; c_codes; c_try_timeout; c_max_retries; c_recv; c_send;
-   c_pool; c_delay; c_snd_err_hdr; c_snd_err_data; c_snd_err_trl>.
+   c_pool; c_delay; c_snd_err_hdr; c_snd_err_data; c_snd_err_trl; c_http>.
 #[export] Instance eta_srcp : Settable _ := settable! Build_srcp
   <loop_bound; min_budget; reset_guarded; direct_clears_again; direct_cancels_retry; direct_resets_upstream; put_resets_cursor; retry_checks_direct; retry_refinalizes;
    timers_reset_stream; hijack_clears_body; retry_clears_reuse;
-   setupretry_clears_reuse; global_lost_cas_stops; append_error_continues; reason_code>.
+   setupretry_clears_reuse; global_lost_cas_stops; append_error_continues; reset_excludes_global; reset_reads_status; res_counts_unlimited; reason_code>.
 
 Inductive rkind := KUp | KHijack | KDirect.
 Record resp := { r_kind : rkind; r_code : Z; r_data : bool; r_trailers : bool;
@@ -116,13 +127,16 @@ Record st := {
   global_ever : bool;   (* the global timer was armed at some point *)
   x_loop : bool;        (* the outer `for` of OnReceive ran out: the worker returned without finishing the stream *)
   x_upf : bool;         (* processError in phase UpFilter consumed an upstream reset and a direct response at once: returns (End, ErrExit) *)
-  x_nog : bool          (* doRetry started a new attempt while no global timer was armed (never armed, or already expired unheard) *)
+  x_nog : bool;         (* doRetry started a new attempt while no global timer was armed (never armed, or already expired unheard) *)
+  status_var : option Z; (* the x-mosn-status variable of the request context (tracked for the HTTP flavour only, where it is read):
+                           set by the client stream when a response arrives, by sendHijackReply; never cleared between attempts *)
+  x_stale : bool        (* ghost: a RESPONSE was judged by the retry state with a status that is not that response's *)
 }.
 
 #[export] Instance eta_st : Settable _ := settable! Build_st
   <ph; outer; wdone; sleeping; woken; received; cleaned; up_reset; down_reset; direct; resp_started; recv_done; req_sent;
    process_done; setup_retry; again; rreason; notify; try_armed; global_armed; retry; reserved; has_upreq; up_sender; up_alive;
-   nnew; cur; rsp; route_matched; rcursor; scursor; fcalls; scalls; delayed; reuse; gave; abandoned; nfin; rc; global_ever; x_loop; x_upf; x_nog>.
+   nnew; cur; rsp; route_matched; rcursor; scursor; fcalls; scalls; delayed; reuse; gave; abandoned; nfin; rc; global_ever; x_loop; x_upf; x_nog; status_var; x_stale>.
 
 Definition init_st (rc0 : Z) : st :=
   {| ph := PInit; outer := 0; wdone := false; sleeping := false; woken := false;
@@ -132,7 +146,7 @@ Definition init_st (rc0 : Z) : st :=
      try_armed := None; global_armed := false; retry := None; reserved := false;
      has_upreq := false; up_sender := false; up_alive := false; nnew := 0; cur := 0;
      rsp := None; route_matched := false; rcursor := 0; scursor := 0; fcalls := []; scalls := []; delayed := []; reuse := true; gave := false; abandoned := false; nfin := 0; rc := rc0;
-     global_ever := false; x_loop := false; x_upf := false; x_nog := false |}.
+     global_ever := false; x_loop := false; x_upf := false; x_nog := false; status_var := None; x_stale := false |}.
 
 (* The filter chain object of a finished stream goes back to a pool (streamfilter.PutStreamFilterChain) and is handed to a later
    stream: the next request served by the same pooled object starts with the cursors that Put left in it. *)
@@ -184,8 +198,10 @@ Variable src : srcp.
 Variable c : cfg.
 
 (* ----- Retries resource (resource_manager.go: Increase/Decrease act only when max != 0) ----- *)
-Definition res_dec : A := fun s => if c_max_retries c =? 0 then (s, []) else (s <| rc := rc s - 1 |>, [ORes (-1)]).
-Definition res_inc : A := fun s => if c_max_retries c =? 0 then (s, []) else (s <| rc := rc s + 1 |>, [ORes 1]).
+(* resource.Increase / Decrease: not counted while no limit is configured (max == 0) - unless the switch says they always count *)
+Definition res_off : bool := (c_max_retries c =? 0) && negb (res_counts_unlimited src).
+Definition res_dec : A := fun s => if res_off then (s, []) else (s <| rc := rc s - 1 |>, [ORes (-1)]).
+Definition res_inc : A := fun s => if res_off then (s, []) else (s <| rc := rc s + 1 |>, [ORes 1]).
 Definition can_create (s : st) : bool := (c_max_retries c =? 0) || (rc s <? 0) || (rc s <? c_max_retries c).
 
 (* retryState.reset() *)
@@ -194,15 +210,24 @@ Definition rs_reset : A :=
   then when reserved (res_dec ;; upd (fun s => s <| reserved := false |>))
   else res_dec.
 
-(* retryState.doRetryCheck; code = Some status when response headers are given *)
-Definition retry_check (code : option Z) (why : reason) : bool :=
+(* retryState.doRetryCheck on the status the mapping yields (None: the mapping fails / is not consulted): the status branch comes
+   first, the reset reasons are looked at only when there is no status *)
+Definition retry_rule (status : option Z) (why : reason) : bool :=
   if reason_eqb why RsOverflow then false
   else if c_retry_on c then
-    match code with
+    match status with
     | Some z => match c_codes c with [] => 500 <=? z | l => existsb (Z.eqb z) l end
     | None => reason_eqb why RsConnFailed || reason_eqb why RsPerTryTimeout || reason_eqb why RsTermination
     end
   else reason_eqb why RsConnFailed.
+(* protocol.MappingHeaderStatusCode(ctx, upstreamProtocol, headers) as doRetryCheck calls it; hdr = Some status when a response is
+   judged (onUpstreamHeaders), None for a reset (onUpstreamReset passes nil headers and the reason) *)
+Definition mapped_status (hdr : option Z) (s : st) : option Z :=
+  match hdr with
+  | Some z => if c_http c then status_var s else Some z
+  | None => if c_http c && reset_reads_status src then status_var s else None
+  end.
+Definition retry_check (hdr : option Z) (why : reason) (s : st) : bool := retry_rule (mapped_status hdr s) why.
 
 Inductive rstatus := RShould | RNo | ROver.
 (* retryState.retry(): reset(); shouldRetry; on ShouldRetry: Increase *)
@@ -212,7 +237,7 @@ Definition rs_retry (code : option Z) (why : reason) (s : st) : st * list out * 
   | None | Some O => (s1, o1, RNo)
   | Some (S n) =>
     let s2 := s1 <| retry := Some n |> in
-    if negb (retry_check code why) then (s2, o1, RNo)
+    if negb (retry_check code why s2) then (s2, o1, RNo)
     else if negb (can_create s2) then (s2, o1, ROver)
     else let '(s3, o3) := res_inc s2 in (s3 <| reserved := true |>, o1 ++ o3, RShould)
   end.
@@ -243,7 +268,8 @@ Definition hijack (code : Z) (body : bool) : A :=
          let keep := negb body && negb (hijack_clears_body src) in
          let d := if keep then match rsp s with Some r => r_data r | None => false end else body in
          let o := if keep then match rsp s with Some r => r_body r | None => KHijack end else KHijack in
-         s <| rsp := Some {| r_kind := KHijack; r_code := code; r_data := d; r_trailers := false; r_body := o |} |> <| direct := true |> <| reuse := false |>).
+         s <| rsp := Some {| r_kind := KHijack; r_code := code; r_data := d; r_trailers := false; r_body := o |} |> <| direct := true |> <| reuse := false |>
+           <| status_var := if c_http c then Some code else status_var s |>).
 Definition direct_response (code : Z) : A :=
   upd (fun s => s <| rsp := Some {| r_kind := KDirect; r_code := code; r_data := true; r_trailers := false; r_body := KDirect |} |> <| direct := true |> <| reuse := false |>).
 
@@ -273,7 +299,7 @@ Definition on_upstream_reset (why : reason) : A := fun s =>
     clean_up ;;
     ite resp_started ds_reset_stream
         (upd (fun s => s <| up_reset := false |>) ;; hijack (reason_code src why) false) in
-  if negb (reason_eqb why RsGlobalTimeout) && negb (resp_started s) && (match retry s with Some _ => true | None => false end)
+  if (negb (reset_excludes_global src) || negb (reason_eqb why RsGlobalTimeout)) && negb (resp_started s) && (match retry s with Some _ => true | None => false end)
   then
     let '(s1, o1, r) := rs_retry None why s in
     match r with
@@ -495,6 +521,7 @@ Definition on_upstream_headers (r : resp) : A := fun s =>
     down_append_headers e r in
   match retry s with
   | Some _ =>
+    let s := s <| x_stale := x_stale s || (c_http c && negb (match status_var s with Some z => z =? r_code r | None => false end)) |> in
     let '(s1, o1, rs) := rs_retry (Some (r_code r)) RsEmpty s in
     match rs with
     | RShould => let '(s2, o2) := setup_retry_act e s1 in (s2, o1 ++ o2)
@@ -573,7 +600,8 @@ Definition env_step (e : ev) (s : st) : st * list out :=
   match e with
   | EvUpResp k status d t =>
     if (k =? cur s)%nat && up_sender s && up_alive s && negb (c_oneway c) then
-      let s1 := s <| up_alive := false |> in
+      (* the client stream puts the status into the request context before it calls the listener *)
+      let s1 := s <| up_alive := false |> <| status_var := if c_http c then Some status else status_var s |> in
       if process_done_b s1 || setup_retry s1 then (s1, [])
       else if received s1 then (s1, [])
       else (s1 <| received := true |> <| rsp := Some {| r_kind := KUp; r_code := status; r_data := d; r_trailers := t; r_body := KUp |} |>
